@@ -275,3 +275,5 @@ _thorough("C15", "C15_pipeline3", "as C15_pipeline with 3 operations in the pipe
 _quick("C05", "C05_msfrac", "a queued request with the millisecond flag, T in {2999, 3000, 3300, 3999, 6001, 7900} ms, arriving 0 / 150 / 850 / 999 ms after the server's second; slot sweeper run at its wake time, then the real per-second sweeps: exactly one TIMEOUT, not before T ms after the arrival and within T + 2 s (symbolic executor only: the sweeper is a sleeping goroutine natively)", ["-witness", "0"], native=False)
 _quick("C06", "C06_msfrac", "a hold with the millisecond flag, E in {2999, 3000, 3300, 3999, 6001, 7900} ms, granted 0 / 150 / 850 / 999 ms after the server's second: exactly one EXPRIED, not before E ms after the grant and within E + 2 s (symbolic executor only)", ["-witness", "0"], native=False)
 _quick("C06", "C06_msrelock", "a hold with a millisecond expiry E in {500, 1500, 2999} ms and Rcount 3, re-locked re-entrantly with the same terms at E/2 or E-1 ms; the sweeper of the original slot runs at E ms, later sweepers and per-second sweeps follow: exactly one EXPRIED in [re-lock + E, re-lock + E + 2 s] (symbolic executor only)", ["-witness", "0"], reach=["relocked"], native=False)
+
+_quick("C12", "C12_logorder", "a leader persists 2..4 records through the real LockDB -> AofChannel -> Aof.PushLock path with a rotation threshold of 1..3 records per file; the log positions (AofLock.GetAofId) of the records as published on the replication ring, in log order: every later position compares newer than every earlier one under ArbiterManager.CompareAofId, in both argument orders", ["-witness", "2"], reach=["end", "rotated"])
